@@ -8,11 +8,13 @@ Kernels (source function -> generated definitions):
   io/delimited_buffers.py DelimitedBuffer._modify_for_carriage_return
                                                                  gen_cr_probe, gen_cr_byte, gen_cr_elem_probe, gen_cr_adjust
   io/file_buffers.py move_intervals_to_digit_array               gen_mida_width, gen_mida_index, gen_mida_n_fill, gen_mida_fill_start
+  io/file_buffers.py move_intervals_to_right_padded_array         gen_stop_len (stop_at: the cell ends at its first ':' only if inside the cell)
   io/file_buffers.py TextBufferExtractor.__init__ / get_field_by_number
                                                                  gen_field_len, gen_gfbn_first, gen_gfbn_step, gen_gfbn_keep_len
   io/vcf_buffers.py VCFBuffer._get_field_by_number               gen_vcf_shift_col, gen_vcf_shift
   io/buffers/sam.py SAMBufferExctractor._get_extra_field         gen_sam_extra_start, gen_sam_extra_len
   io/named_text_buffer.py NamedBufferExtractor.has_field_mask    gen_hfm_line_len, gen_hfm_ignored
+  io/named_text_buffer.py NamedBufferExtractor.has_field_name    gen_flag_len_match (Flag keys: item length == key length)
   io/named_text_buffer.py NamedBufferExtractor.get_field_by_name gen_value_start, gen_value_len, gen_value_keep_len
 
 Reading conventions (trusted; stated in notes/C02.md): an element-wise NumPy expression over equally shaped / broadcast
@@ -270,6 +272,19 @@ def gen():
     _emit(defs, 'gen_mida_fill_start', lambda: K02(mida(), {'starts.size': 'n_rows'}, col='row').define(
         'gen_mida_fill_start', ['row', 'n_rows', 'max_chars'], mida_view().args[0]))
 
+    # ---- file_buffers.move_intervals_to_right_padded_array, stop_at branch: where a cell ends
+    def stop_len():
+        f = find_function(tree(FB), 'move_intervals_to_right_padded_array')
+        i = _one([n for n in ast.walk(f) if isinstance(n, ast.If) and src_of(n.test) == 'stop_at is not None'], 'if stop_at is not None')
+        a = _one([n for n in i.body if isinstance(n, ast.Assign) and src_of(n.targets[0]) == 'lens'], 'lens = ... in the stop_at branch')
+        nl = _one([n for n in i.body if isinstance(n, ast.Assign) and src_of(n.targets[0]) == 'new_lens'], 'new_lens = ...')
+        if src_of(nl.value) != 'np.argmax(array == stop_at, axis=-1)':
+            raise Unsupported('new_lens is not the position of the first stop byte: %s' % src_of(nl.value))
+        if i.body.index(nl) > i.body.index(a):
+            raise Unsupported('new_lens assigned after its use')
+        return K02(f, {'lens': 'l', 'new_lens': 'p'}).define('gen_stop_len', ['l', 'p'], a.value)
+    _emit(defs, 'gen_stop_len', stop_len)
+
     # ---- TextBufferExtractor: field length and column selection
     def field_len():
         f = find_function(tree(FB), 'TextBufferExtractor.__init__')
@@ -369,6 +384,17 @@ def gen():
             txt += '  let line_len := %s in\n' % k.expr(_assign(f, 'line_len').value, ['name_len'], [])
         return txt + '  %s.\n' % body
     _emit(defs, 'gen_hfm_ignored', hfm_ignored)
+    def flag_len():
+        f = find_function(tree(NB), 'NamedBufferExtractor.has_field_name')
+        a = _one([n for n in f.body if isinstance(n, ast.Assign) and src_of(n.targets[0]) == 'mask'], 'mask = <length test>')
+        k = K02(f, {'self._field_lens.ravel()': 'l', 'len(name)': 'name_len'})
+        body = k.cond(a.value, ['l', 'name_len'], [])
+        # the items that pass are then compared with the key over exactly len(name) bytes
+        v = _one([n for n in ast.walk(f) if isinstance(n, ast.Call) and src_of(n.func) == 'np.full'], 'np.full(...)')
+        if [src_of(x) for x in v.args] != ['mask.sum()', 'len(name)']:
+            raise Unsupported('compared width changed: %s' % src_of(v))
+        return 'Definition gen_flag_len_match (l : Z) (name_len : Z) : bool :=\n  %s.\n' % body
+    _emit(defs, 'gen_flag_len_match', flag_len)
     gbn = lambda: find_function(tree(NB), 'NamedBufferExtractor.get_field_by_name')
     _emit(defs, 'gen_value_start', lambda: K02(gbn(), {'len(name)': 'name_len', 'self._field_starts.ravel()[mask]': 'start'}).define(
         'gen_value_start', ['start', 'name_len'], 'field_starts'))
